@@ -10,7 +10,15 @@ def run(ctx):
                 "sides completed or failed negotiation (not a harness error); plus chunked and malformed-block runs")
     ctx.assumptions = ["TLS is replaced by a no-op startTLS and peerFromTransport returns the peer Tub's certificate",
                        "vocab table hashes are computed by the same vocab.py on both sides (hash mismatch is exercised by "
-                       "rewriting the decision block in flight)"]
+                       "rewriting the decision block in flight); sha1 itself is not modelled: the model carries the hash as a number and "
+                       "'matching contents' means equal hashes",
+                       "a Python str is modelled by its UTF-8 bytes; str.lower() is modelled on ASCII keys (every key the package writes is an "
+                       "ASCII literal); int() and str.split() are modelled for ASCII text (the model abstains on other text, counted in "
+                       "wire_model_abstains_non_ascii); decimal formatting '%d' is tied by the correspondence only (its round trip through "
+                       "int() is not proved)",
+                       "the phase machine abstracts the content of a block to the handler's verdict; that a refusal leaves the Tub's tables "
+                       "untouched is checked on the real code only (malformed_with_existing, accept-decision probe)",
+                       "the hello keys my-incarnation / last-connection and the decision key current-connection are C14's and not modelled here"]
     ok, log = ctx.coq_build(["props/C13.vo"])
     from harness import c13_impl as impl
     failures_before = len(ctx.failures)
@@ -18,11 +26,20 @@ def run(ctx):
     cases = impl.sweep(ctx)
     # 2. correspondence with the Coq model (needs at least the model files to build)
     model_ok = True
+    wire_ok = ok
     if not ok:
-        ok2, log2 = ctx.coq_build(["lib/Negotiate.vo"])
+        ok2, log2 = ctx.coq_build(["lib/Negotiate.vo", "lib/NegSplit.vo"])
         model_ok = ok2
+        ok3, log3 = ctx.coq_build(["lib/NegWire.vo"])
+        wire_ok = ok3
     if model_ok:
         correspond(ctx, cases)
+    if wire_ok:
+        from harness import c13_codec
+        c13_codec.codec(ctx)
+        c13_codec.wire(ctx)
+        correspond_phases(ctx, cases)
+    hostile_decider(ctx, impl)
     # 3. chunkings and malformed blocks (direct oracle)
     impl.chunked(ctx)
     impl.malformed(ctx)
@@ -84,6 +101,81 @@ Eval vm_compute in map (fun c => let '(oa, ob) := negotiate (fst c) (snd c) in (
                          has_input=False)
     ctx.extra["correspondence_cases"] = len(cases)
     ctx.extra["correspondence_disagreements"] = nbad
+
+
+def correspond_phases(ctx, cases):
+    """the phase machine of lib/NegWire.v (dispatch, guard and error report TRANSLATED from dataReceived) against the two real
+    Negotiation objects of every sweep configuration: (receive_phase, send_phase, switched?) when the network is quiet"""
+    from harness import c13_impl as impl
+    rows, meta = [], []
+    V = dict(good="VGood", decide="VHelloIDecide", refuse="VHelloIRefuse", wait="VHelloIWait", bad="VBad")
+    for c in cases:
+        ph = c.get("phases") or []
+        if len(ph) != 2:
+            continue
+        ra, rb = c["ra"], c["rb"]
+        vs = set(range(ra[0], ra[1] + 1)) & set(range(rb[0], rb[1] + 1))
+        vo = set(range(ra[2], ra[3] + 1)) & set(range(rb[2], rb[3] + 1))
+        for (is_client, recv, send, switched, is_a) in ph:
+            master = (is_a == c["a_high"])
+            if not vs:
+                seq, lost = ["good", "bad"], True
+            elif master:
+                seq, lost = (["good", "decide"], False) if vo else (["good", "refuse"], True)
+            else:
+                if not vo:
+                    seq, lost = ["good", "wait", "bad"], True
+                elif c["tamper"] == "hash" and max(vo) > 0:
+                    seq, lost = ["good", "wait", "bad"], True
+                else:
+                    seq, lost = ["good", "wait", "good"], False
+            rows.append("(%s, [%s], %s)" % ("true" if is_client else "false", "; ".join(V[x] for x in seq), "true" if lost else "false"))
+            meta.append((c, is_client, master, [recv, send, 1 if switched else 0]))
+    if not rows:
+        return
+    body = ("Local Open Scope Z_scope.\nDefinition rows : list (bool * list verdict * bool) := [%s].\n"
+            "Eval vm_compute in map (fun r : bool * list verdict * bool => let '(c, vs, lost) := r in let s := run_blocks (init_state c) vs in\n"
+            "  firstn 3 (state_code (if lost then on_lost s else s))) rows.\n" % ";\n".join(rows))
+    try:
+        (vals,) = ctx.coq_eval("C13_phases", body, requires=["Verif.lib.PyLite", "Verif.gen.NegotiateGen", "Verif.lib.Negotiate", "Verif.lib.NegCodec",
+                                                             "Verif.gen.NegCodecGen", "Verif.lib.NegSplit", "Verif.lib.NegWire"])
+    except common.CoqEvalError as e:
+        ctx.fail("correspondence-broken", "the phase machine could not be evaluated: " + str(e)[-1500:], has_input=False)
+        return
+    nbad = 0
+    for (c, is_client, master, obs), m in zip(meta, vals):
+        ctx.traces += 1
+        ctx.hist("phase_final", "%s/%s: %r" % ("client" if is_client else "server", "decider" if master else "other", obs))
+        if m != obs:
+            nbad += 1
+            if nbad <= 3:
+                ctx.fail("correspondence/phases", "phase machine and Negotiation object disagree for %r (%s, %s): model [recv, send, switched] = %r, "
+                         "implementation %r" % ({k: c[k] for k in ("ra", "rb", "a_high", "tamper")}, "client" if is_client else "server",
+                                                "decider" if master else "non-decider", m, obs),
+                         replay=dict(case={k: c[k] for k in ("ra", "rb", "a_high", "tamper")}), has_input=False)
+    ctx.extra["phase_cases"] = len(meta)
+    ctx.extra["phase_disagreements"] = nbad
+
+
+def hostile_decider(ctx, impl):
+    """replay of the witness of C13_slave_checks_own_range_refuted on the real code (recorded observation, DESIGN section 9: harmless
+    with a decider that follows the protocol): a decision for version 1 or 2 is accepted by a non-decider whose own range is 3..3."""
+    import re as _re
+    seen = []
+    for v in (1, 2):
+        def down(link, side, d, v=v):
+            return _re.sub(rb"banana-decision-version: \d+", b"banana-decision-version: %d" % v, d)
+        with impl.quiet():
+            pa, pb, res = impl.trial((3, 3, 0, 1), (3, 3, 0, 1), True, mangle=down)
+        ctx.case(["hostile-decider", v], nontrivial=True)
+        seen.append((v, pa, pb))
+    if any(pa != pb for (v, pa, pb) in seen):
+        ctx.note("observation (not a violation for two endpoints that follow the protocol): a non-decider with version range 3..3 accepts a decision "
+                 "for version 1 / 2 -- it checks the decided version only against the accept methods the class has, neither against its own "
+                 "range nor against the version it computed from the decider's hello: %r (theorem C13_slave_checks_own_range_refuted)" % (seen,))
+    else:
+        ctx.note("the non-decider now refuses a decision for a version outside its own range: %r; C13_slave_checks_own_range_refuted "
+                 "describes the model only" % (seen,))
 
 
 def correspond_split(ctx, scases):
